@@ -200,3 +200,18 @@ claim("C19",
       "Does not decide the numerical decay exponent of the residual interaction nor the asymptotics of the multipole integrals themselves. "
       "Trusted: sympy limits, radial-form recogniser (square-sum / norm spellings enumerated).",
       "DESIGN.md section 4, C19")
+
+claim("C16",
+      "solver-protocol conformance of the three Davidson drivers: counter-rule loop bound + CFG exit analysis, guard extraction on `done` stores, "
+      "row-selector provenance (mask / index def-chains) for result-buffer stores, slice/eigh shape of the reported block, tuple-binding and "
+      "co-permutation checks of the MO matching helper",
+      "Decides the clauses of C16 that are properties of the iteration protocol rather than of numbers: a molecule is reported converged only "
+      "through the residual test against the caller's tolerance (or the inventoried stagnation exit), running out of iterations always raises, "
+      "converged eigenpairs are frozen against later iterations of slower batch mates (batch-composition independence of the stored result), the "
+      "reported energies are the contiguous lowest block of an ascending eigh, orbital energies stay paired with re-ordered orbitals across "
+      "geometry sequences, and AO-basis guesses are orthonormalised. Because convergence is judged by the residual only, the answer cannot "
+      "depend on the starting guess beyond the tolerance.",
+      "Does not decide that the sigma build equals the CIS/RPA matrix, that no lower root is missed (root skipping near degeneracy), "
+      "orthonormality to machine precision, or RPA <= CIS: those need the dense matrix as an oracle. Stagnation exits are inventoried, not judged. "
+      "Trusted: eigh ordering, guard extraction.",
+      "DESIGN.md section 4, C16")
